@@ -31,8 +31,8 @@ func main() {
 		panic(err)
 	}
 	switch *family {
-	case "engine":
-		engine(*profile, *seed, *n, *out, *shard, *ids)
+	case "engine", "fe":
+		engine(*family, *profile, *seed, *n, *out, *shard, *ids)
 	default:
 		only := map[int]bool{}
 		for _, x := range strings.Split(*ids, ",") {
@@ -58,7 +58,8 @@ func main() {
 	}
 }
 
-func engine(profile string, seed uint64, n int, out string, shard int, ids string) {
+func engine(family, profile string, seed uint64, n int, out string, shard int, ids string) {
+	failures := []map[string]any{}
 	only := map[int]bool{}
 	for _, x := range strings.Split(ids, ",") {
 		if x != "" {
@@ -94,7 +95,19 @@ func engine(profile string, seed uint64, n int, out string, shard int, ids strin
 			continue
 		}
 		g := &eng.Gen{R: eng.NewRng(seed*1000003 + uint64(i)), P: p}
-		c := eng.NewCase(g, i, nil)
+		var c *eng.Case
+		if family == "fe" {
+			c = eng.NewFECase(g, i)
+			if c.FEDiff != "" {
+				tag := "fe_equiv"
+				if c.FENested {
+					tag = "fe_nested_flat"
+				}
+				failures = append(failures, map[string]any{"id": i, "tags": []string{tag}, "detail": c.FEDiff})
+			}
+		} else {
+			c = eng.NewCase(g, i, nil)
+		}
 		stats.Add(c)
 		if len(only) > 0 && !c.RepeatsAgree() {
 			for _, r := range c.Repeats {
@@ -111,8 +124,17 @@ func engine(profile string, seed uint64, n int, out string, shard int, ids strin
 		}
 	}
 	flush()
+	probes := []map[string]any{}
+	if family == "fe" && len(only) == 0 {
+		for k, p := range eng.FEProbes() {
+			probes = append(probes, map[string]any{"tag": p.Tag, "failed": p.Failed, "detail": p.Detail})
+			if p.Failed {
+				failures = append(failures, map[string]any{"id": 1000000 + k, "tags": []string{p.Tag}, "detail": p.Detail})
+			}
+		}
+	}
 	meta := map[string]any{
-		"family": "engine", "profile": profile, "seed": seed, "cases": stats.Cases, "validate_mode": stats.Validate,
+		"family": family, "failures": failures, "probes": probes, "profile": profile, "seed": seed, "cases": stats.Cases, "validate_mode": stats.Validate,
 		"order_known": stats.Known, "recording_provider": stats.Wrapped, "panics": stats.Panics,
 		"with_issues": stats.WithIssues, "nil_result": stats.NilResult, "node_kinds": stats.Kinds, "issue_codes": stats.Codes,
 		"distinct_shapes": len(stats.Shapes), "distinct_nontrivial": len(stats.Outcomes), "files": files, "samples": samples,
